@@ -53,7 +53,8 @@ def _worker(args):
             _ENV_CACHE.clear()
             _ENV_CACHE[(hname, key)] = h["build"](cfg)
         env = _ENV_CACHE[(hname, key)]
-        shims.install(_model(cfg.get("backend", "c")), pure_model=_model("py"))
+        shims.install(_model(cfg.get("backend", "c")), pure_model=_model("py"),
+                      extra_modules=env.get("extra_modules") if isinstance(env, dict) else None)
         lim = h.get("limits", {}).get(tier) or explore.Limits()
         findings = [f for f in load_findings(prop) if f.get("harness") == hname]
         res = explore.explore_config(h["run"], cfg, env, limits=lim, findings=findings,
@@ -143,21 +144,49 @@ def run_pool(mod, jobs, njobs, tier):
             budget = max(budget, lim.wall_s + 120)
     results, done = [], set()
     ctx = mp.get_context("fork")
+    # whole-run budget and early stop: a change that breaks a property can also make every
+    # configuration slow (e.g. lenient mode running on after a dropped length check); the run then
+    # ends with what it has found instead of taking hours
+    t_start = time.time()
+    total_budget = float(os.environ.get("VERIF_BUDGET_S", "1500" if tier == "quick" else "14400"))
+    nviol = 0
+    stopped = None
     try:
-        with cf.ProcessPoolExecutor(max_workers=min(njobs, len(jobs)), mp_context=ctx) as ex:
-            futs = {ex.submit(_worker, j): j for j in jobs}
-            for f in cf.as_completed(futs):
+        ex = cf.ProcessPoolExecutor(max_workers=min(njobs, len(jobs)), mp_context=ctx)
+        futs = {ex.submit(_worker, j): j for j in jobs}
+        try:
+            for f in cf.as_completed(futs, timeout=total_budget):
                 j = futs[f]
                 try:
-                    results.append(f.result())
+                    r = f.result()
+                    results.append(r)
                     done.add(j[1])
+                    nviol += len(r.get("violations", []))
                 except cf.process.BrokenProcessPool:
                     pass
                 except Exception as e:  # noqa: BLE001
                     results.append({"idx": j[1], "cfg": j[2], "crash": f"{type(e).__name__}: {e}"})
                     done.add(j[1])
+                if nviol >= 60:
+                    stopped = "stopped early after 60 candidate violations"
+                    break
+        except cf.TimeoutError:
+            stopped = f"whole-run budget of {int(total_budget)}s exhausted"
+        if stopped:
+            for f in futs:
+                f.cancel()
+            for p in list(getattr(ex, "_processes", {}).values()):
+                p.kill()
+            ex.shutdown(wait=False, cancel_futures=True)
+        else:
+            ex.shutdown(wait=True)
     except cf.process.BrokenProcessPool:
         pass
+    if stopped:
+        for j in jobs:
+            if j[1] not in done:
+                results.append({"idx": j[1], "cfg": j[2], "skipped": stopped})
+        return results
     rest = [j for j in jobs if j[1] not in done]
     running = []
     attempts = {}
@@ -211,6 +240,7 @@ def report(prop, tier, seed, mod, cfgs, results, wall, write=True):
     findings = load_findings(prop)
     fin_by_id = {f["id"]: f for f in findings}
     harness_errors = []
+    skipped = []
     violations = []
     known = {}
     inconclusive = []
@@ -224,6 +254,9 @@ def report(prop, tier, seed, mod, cfgs, results, wall, write=True):
         cid = r["cfg"].get("id")
         if "crash" in r:
             harness_errors.append(f"{cid}: worker crashed: {r['crash'][:1500]}")
+            continue
+        if "skipped" in r:
+            skipped.append(r["skipped"])
             continue
         for k in tot:
             tot[k] += r[k]
@@ -313,6 +346,10 @@ def report(prop, tier, seed, mod, cfgs, results, wall, write=True):
         except Exception as e:  # noqa: BLE001
             harness_errors.append(f"canary crashed: {type(e).__name__}: {e}")
 
+    if skipped:
+        inconclusive.append(f"{len(skipped)} configurations not run: {skipped[0]}")
+        if not violations:
+            harness_errors.append(f"{len(skipped)} configurations not run: {skipped[0]}")
     for line in known_lines:
         print(line)
     for m in inconclusive[:40]:
